@@ -1,3 +1,113 @@
-//! Solver harnesses mounted into rs-matter/src/utils/storage/ringbuf.rs
-#![allow(unused_imports, dead_code)]
+//! C18 - the real ring buffer against a FIFO reference at N = 8, plus the abstract FIFO that
+//! stands in for the production `RingBuf<3166>` inside the BTP session harnesses (its
+//! 3166-iteration `resize_default` loop does not fit CBMC: 15 min measured).
+#![allow(unused_imports, dead_code, static_mut_refs)]
 use super::*;
+use crate::verif_support::*;
+use crate::{vassert, vcover};
+
+// ---- abstract FIFO (one instance): 48-byte content + capacity accounting ----------------------
+pub(crate) const M_CAP: usize = 48;
+pub(crate) static mut M_BUF: [u8; M_CAP] = [0; M_CAP];
+pub(crate) static mut M_LEN: usize = 0;
+/// bytes the abstract buffer pretends to hold already (content unknown) - lets a harness start
+/// from an arbitrary fill level of the production buffer
+pub(crate) static mut M_GHOST_USED: usize = 0;
+
+pub(crate) fn model_reset(ghost_used: usize) {
+    unsafe {
+        M_LEN = 0;
+        M_GHOST_USED = ghost_used;
+    }
+}
+pub(crate) fn model_push<const N: usize>(_rb: &mut RingBuf<N>, data: &[u8]) -> usize {
+    unsafe {
+        let mut i = 0;
+        while i < data.len() {
+            if M_LEN < M_CAP {
+                M_BUF[M_LEN] = data[i];
+                M_LEN += 1;
+            }
+            i += 1;
+        }
+        M_LEN + M_GHOST_USED
+    }
+}
+pub(crate) fn model_pop<const N: usize>(_rb: &mut RingBuf<N>, out: &mut [u8]) -> usize {
+    unsafe {
+        let n = core::cmp::min(out.len(), M_LEN);
+        let mut i = 0;
+        while i < n {
+            out[i] = M_BUF[i];
+            i += 1;
+        }
+        let mut j = 0;
+        while j + n < M_LEN {
+            M_BUF[j] = M_BUF[j + n];
+            j += 1;
+        }
+        M_LEN -= n;
+        n
+    }
+}
+pub(crate) fn model_pop_byte<const N: usize>(rb: &mut RingBuf<N>) -> Option<u8> {
+    let mut b = [0u8; 1];
+    if model_pop(rb, &mut b) == 1 {
+        Some(b[0])
+    } else {
+        None
+    }
+}
+pub(crate) fn model_free<const N: usize>(_rb: &RingBuf<N>) -> usize {
+    unsafe { N - core::cmp::min(N, M_LEN + M_GHOST_USED) }
+}
+
+// ---- the real ring buffer, N = 8, against a FIFO reference --------------------------------------
+/// push(a) ; pop(lo) ; push(b) ; pop(all): lengths, free space and byte order agree with a FIFO,
+/// for every content and every split (wrap-around inside the 8-byte storage included).
+#[cfg_attr(kani, kani::proof)]
+#[cfg_attr(kani, kani::unwind(10))]
+#[cfg_attr(not(kani), test)]
+fn c18_q_ringbuf8_fifo() {
+    let mut rb: RingBuf<8> = RingBuf::new();
+    let a: [u8; 4] = any_bytes::<4>();
+    let la = any_usize();
+    assume(la <= 4);
+    let b: [u8; 4] = any_bytes::<4>();
+    let lb = any_usize();
+    assume(lb <= 4);
+    // start somewhere in the storage so that the second push wraps
+    let pre = any_usize();
+    assume(pre <= 7);
+    let z = [0u8; 8];
+    rb.push(&z[..pre]);
+    let mut sink = [0u8; 8];
+    let _ = rb.pop(&mut sink[..pre]);
+    vassert!(rb.is_empty() && rb.len() == 0, "ROLE:ringbuf-empty-after-draining");
+
+    rb.push(&a[..la]);
+    let mut out1 = [0u8; 4];
+    let lo = any_usize();
+    assume(lo <= 4);
+    let n1 = rb.pop(&mut out1[..lo]);
+    vassert!(n1 == core::cmp::min(lo, la), "ROLE:ringbuf-pop-count");
+    let mut i = 0;
+    while i < n1 {
+        vassert!(out1[i] == a[i], "ROLE:ringbuf-fifo-order");
+        i += 1;
+    }
+    rb.push(&b[..lb]);
+    vassert!(rb.len() == la - n1 + lb, "ROLE:ringbuf-len-accounting");
+    vassert!(rb.free() == 8 - rb.len(), "ROLE:ringbuf-free-accounting");
+    let mut out2 = [0u8; 8];
+    let n2 = rb.pop(&mut out2);
+    vassert!(n2 == la - n1 + lb, "ROLE:ringbuf-pop-count");
+    let mut k = 0;
+    while k < n2 {
+        let expect = if k < la - n1 { a[n1 + k] } else { b[k - (la - n1)] };
+        vassert!(out2[k] == expect, "ROLE:ringbuf-fifo-order");
+        k += 1;
+    }
+    vassert!(rb.is_empty(), "ROLE:ringbuf-empty-after-draining");
+    vcover!(pre == 7 && la == 4 && lb == 4 && lo == 1);
+}
